@@ -63,7 +63,9 @@ SENTINELS = {"bin:<:c8,u8", "bin:>=:i16,u16", "bin:==:c8,u16", "unary:-:u8", "un
 # ------------------------------------------------------------------ AST helpers for the systematic probes
 PREC_SENTINELS = {"prec:%s:%s:%s" % (a, b, sh) for a, b in (("==", "<"), ("<", "=="), ("&", "=="), ("==", "&"), ("<<", "+"), ("+", "<<"),
                                                                ("^", "&"), ("|", "^"), ("&&", "|"), ("||", "&&"), ("-", "-"), ("/", "*"),
-                                                               ("<", "<<"), ("%", "-"), ("-", "/")) for sh in "lr"}
+                                                               ("<", "<<"), ("%", "-"), ("-", "/")) for sh in "lr"} | {
+    "literal-hex16:i32:2147483648", "literal-hex16-use:i32:2147483648", "literal-hex16-use:i32:4294967295",
+    "literal-hex8:i32:4294967295", "literal-hex16:i32:9223372036854775808", "literal-hex8-use:il:2147483648"}
 
 
 def V(n):
@@ -192,6 +194,18 @@ def probes():
                PROG([FN("f", "u64", [("a", "i32")], [RET(B("+", type_reveal(L(v, ty)), B("*", V("a"), L(0))))])]), True)
         yield ("literal-value:%s:%d" % (ty, v),
                PROG([FN("f", "u64", [("a", "i32")], [RET(B("+", B("/", L(v, ty), L(3)), B("*", V("a"), L(0))))])]), True)
+    # hexadecimal / octal constants: the unsigned types join the list (0x80000000 is unsigned int, not long)
+    for base in (16, 8):
+        for ty, v in (("i32", 0x7FFFFFFF), ("i32", 0x80000000), ("i32", 0xFFFFFFFF), ("i32", 0x100000000), ("i32", 0x7FFFFFFFFFFFFFFF),
+                      ("i32", 0x8000000000000000), ("i32", 0xFFFFFFFFFFFFFFFF), ("il", 0x8000000000000000), ("i64", 0xFFFFFFFFFFFFFFFF),
+                      ("il", 0x80000000), ("u32", 0xFFFFFFFF), ("u32", 0x100000000), ("i32", 0xFFFF), ("i32", 0)):
+            lit = dict(L(v, ty), hex=base)
+            yield ("literal-hex%d:%s:%d" % (base, ty, v),
+                   PROG([FN("f", "u64", [("a", "i32")], [RET(B("+", type_reveal(lit), B("*", V("a"), L(0))))])]), True)
+            # the type decides the arithmetic: -1 / lit, -1 < lit, lit >> 31 differ between unsigned int and long
+            yield ("literal-hex%d-use:%s:%d" % (base, ty, v),
+                   PROG([FN("f", "u64", [("a", "i32")],
+                            [RET(B("+", B("+", B("/", V("a"), lit), B("<", V("a"), lit)), B(">>", lit, L(31))))])]), True)
     # switch on every type, default in the middle, fall-through
     for ta in TYPES:
         cases = [{"v": 1, "b": [ASG(V("r"), L(10), "+=")], "brk": False},
